@@ -13,8 +13,9 @@ func untilCancelled(ctx context.Context) error {
 	return context.Canceled
 }
 
-// H_C06_SyncKeepsKey: a key removed with a release delay and then requested again by SyncKeys
-// before the delay expires must be kept for good.
+// H_C06_SyncKeepsKey: a key removed with a release delay and then requested again (by SetKey
+// or by SyncKeys, symbolic) before the delay expires must be kept for good. The container has
+// a context, so the key's routine is really running.
 func H_C06_SyncKeepsKey() {
 	ctor := func(key int) (keyed.Routine, int) { return untilCancelled, key }
 	k := keyed.NewKeyed[int, int](ctor, keyed.WithReleaseDelay[int, int](time.Second))
@@ -32,4 +33,190 @@ func H_C06_SyncKeepsKey() {
 		vrt.Assert(ok, "rerequested-key-kept")
 		k.ClearContext()
 	})
+}
+
+// keyModel is the reference for the key set over keys {1,2}.
+type keyModel struct {
+	present [3]bool
+	pending [3]bool // delayed removal pending
+	delay   bool
+}
+
+func (m *keyModel) remove(k int) bool {
+	existed := m.present[k]
+	if existed {
+		if m.delay {
+			m.pending[k] = true
+		} else {
+			m.present[k] = false
+		}
+	}
+	return existed
+}
+
+func (m *keyModel) request(k int) bool {
+	existed := m.present[k]
+	m.present[k] = true
+	m.pending[k] = false
+	return existed
+}
+
+func (m *keyModel) advance() {
+	for k := 1; k <= 2; k++ {
+		if m.pending[k] {
+			m.present[k], m.pending[k] = false, false
+		}
+	}
+}
+
+func keyedCheck(k *keyed.Keyed[int, int], m *keyModel) {
+	n := 0
+	for key := 1; key <= 2; key++ {
+		d, ok := k.GetKey(key)
+		vrt.Assert(ok == m.present[key], "getkey-differs-from-model")
+		if ok {
+			vrt.Assert(d == key*10, "getkey-data")
+			n++
+		}
+	}
+	vrt.Assert(len(k.GetKeys()) == n, "getkeys-count-differs-from-model")
+}
+
+// keyedOp applies one symbolic operation to the container and the model and checks the
+// return values. op: 0 SetKey(1) 1 SetKey(2) 2 RemoveKey(1) 3 RemoveKey(2) 4..7 SyncKeys of
+// the subset {}, {1}, {2}, {1,2}.
+func keyedOp(k *keyed.Keyed[int, int], m *keyModel, op int) {
+	switch op {
+	case 0, 1:
+		key := op + 1
+		d, existed := k.SetKey(key, false)
+		vrt.Assert(existed == m.request(key), "setkey-existed")
+		vrt.Assert(d == key*10, "setkey-data")
+	case 2, 3:
+		key := op - 1
+		vrt.Assert(k.RemoveKey(key) == m.remove(key), "removekey-existed")
+	default:
+		want1, want2 := op == 5 || op == 7, op == 6 || op == 7
+		var keys []int
+		if want1 {
+			keys = append(keys, 1)
+		}
+		if want2 {
+			keys = append(keys, 2, 2) // a duplicate inside the call is allowed
+		}
+		added, removed := k.SyncKeys(keys, false)
+		nAdd, nRem := 0, 0
+		for key := 1; key <= 2; key++ {
+			want := (key == 1 && want1) || (key == 2 && want2)
+			if want {
+				if !m.request(key) {
+					nAdd++
+					found := false
+					for _, a := range added {
+						if a == key {
+							found = true
+						}
+					}
+					vrt.Assert(found, "synckeys-added-missing")
+				}
+			} else if m.remove(key) {
+				nRem++
+				found := false
+				for _, r := range removed {
+					if r == key {
+						found = true
+					}
+				}
+				vrt.Assert(found, "synckeys-removed-missing")
+			}
+		}
+		vrt.Assert(len(added) == nAdd && len(removed) == nRem, "synckeys-counts")
+	}
+}
+
+// H_C06_History: a symbolic history of three key-set operations over keys {1,2} (SetKey,
+// RemoveKey, SyncKeys of any subset, with a duplicate) on a container without context, with or
+// without a release delay (symbolic); every return value and GetKey/GetKeys agree with the
+// reference model after every operation; then the delay expires and the key set is compared
+// again: keys whose removal was pending are gone, keys requested again before that are kept.
+func H_C06_History() {
+	delay := vrt.Bool("delay")
+	ctor := func(key int) (keyed.Routine, int) { return untilCancelled, key * 10 }
+	var k *keyed.Keyed[int, int]
+	if delay {
+		k = keyed.NewKeyed[int, int](ctor, keyed.WithReleaseDelay[int, int](time.Second))
+	} else {
+		k = keyed.NewKeyed[int, int](ctor)
+	}
+	m := &keyModel{delay: delay}
+	ops := [3]int{vrt.Int("op0", 0, 7), vrt.Int("op1", 0, 7), vrt.Int("op2", 0, 7)}
+	for i := 0; i < 3; i++ {
+		keyedOp(k, m, ops[i])
+		keyedCheck(k, m)
+	}
+	vrt.Advance()
+	m.advance()
+	vrt.AtQuiescence(func() {
+		keyedCheck(k, m)
+	})
+}
+
+// H_C06_History2: as H_C06_History with two operations (all 64 histories are case split in the
+// quick tier when a release delay is configured).
+func H_C06_History2() {
+	delay := vrt.Bool("delay")
+	ctor := func(key int) (keyed.Routine, int) { return untilCancelled, key * 10 }
+	var k *keyed.Keyed[int, int]
+	if delay {
+		k = keyed.NewKeyed[int, int](ctor, keyed.WithReleaseDelay[int, int](time.Second))
+	} else {
+		k = keyed.NewKeyed[int, int](ctor)
+	}
+	m := &keyModel{delay: delay}
+	ops := [2]int{vrt.Int("op0", 0, 7), vrt.Int("op1", 0, 7)}
+	for i := 0; i < 2; i++ {
+		keyedOp(k, m, ops[i])
+		keyedCheck(k, m)
+	}
+	vrt.Advance()
+	m.advance()
+	vrt.AtQuiescence(func() {
+		keyedCheck(k, m)
+	})
+}
+
+// H_C06_RefCount: KeyedRefCount over one key: two references added, then a symbolic sequence of
+// three operations out of {release ref A, release ref B, RemoveKey, AddKeyRef}; the key is
+// present exactly while an unreleased reference exists (RemoveKey drops all of them) and
+// releasing a reference twice counts once.
+func H_C06_RefCount() {
+	ctor := func(key int) (keyed.Routine, int) { return untilCancelled, key * 10 }
+	k := keyed.NewKeyedRefCount[int, int](ctor)
+	refA, d, existed := k.AddKeyRef(1)
+	vrt.Assert(!existed && d == 10, "addkeyref-first")
+	refB, _, existed := k.AddKeyRef(1)
+	vrt.Assert(existed, "addkeyref-second")
+	aLive, bLive, extra := true, true, 0
+	ops := [3]int{vrt.Int("op0", 0, 3), vrt.Int("op1", 0, 3), vrt.Int("op2", 0, 3)}
+	for i := 0; i < 3; i++ {
+		switch ops[i] {
+		case 0:
+			refA.Release()
+			aLive = false
+		case 1:
+			refB.Release()
+			bLive = false
+		case 2:
+			present := aLive || bLive || extra > 0
+			vrt.Assert(k.RemoveKey(1) == present, "refcount-removekey-existed")
+			aLive, bLive, extra = false, false, 0
+		default:
+			present := aLive || bLive || extra > 0
+			_, _, ex := k.AddKeyRef(1)
+			vrt.Assert(ex == present, "refcount-addkeyref-existed")
+			extra++
+		}
+		_, ok := k.GetKey(1)
+		vrt.Assert(ok == (aLive || bLive || extra > 0), "refcount-presence")
+	}
 }
